@@ -84,3 +84,26 @@ neutral("diff-renamed-locals", ["C16"],
 neutral("max-satisfying-loop", ["C14"],
         (R, "        versions.iter().filter(|v| self.satisfies(v)).max()",
             "        let mut best: Option<&'v Version> = None;\n        for v in versions {\n            if self.satisfies(v) {\n                best = match best {\n                    Some(b) if b > v => Some(b),\n                    _ => Some(v),\n                };\n            }\n        }\n        best"))
+
+# ---- C01 / C02
+mutant("c01-tilde-minor-no-inc", ["C01"], (R, "            Bound::Upper(Predicate::Excluding((major, minor + 1, 0, 0).into())),\n        ),\n        (\n            None,\n            Partial {\n                major: Some(major),\n                minor: Some(minor),\n                patch: Some(patch),",
+                                            "            Bound::Upper(Predicate::Excluding((major, minor, 0, 0).into())),\n        ),\n        (\n            None,\n            Partial {\n                major: Some(major),\n                minor: Some(minor),\n                patch: Some(patch),"))
+mutant("c01-caret-drop-dash-zero", ["C01"], (R, "                    (0, 0, n) => Version::from((0, 0, n + 1, 0)),", "                    (0, 0, n) => Version::from((0, 0, n + 1)),"))
+mutant("c01-caret-arm-order", ["C01"], (R, "                    (0, 0, n) => Version::from((0, 0, n + 1, 0)),\n                    (0, n, _) => Version::from((0, n + 1, 0, 0)),", "                    (0, n, _) => Version::from((0, n + 1, 0, 0)),\n                    (0, 0, n) => Version::from((0, 0, n + 1, 0)),"))
+mutant("c01-gt-major-incl-excl", ["C01"], (R, "            ) => BoundSet::at_least(Predicate::Including((major + 1, 0, 0).into())),", "            ) => BoundSet::at_least(Predicate::Excluding((major + 1, 0, 0).into())),"))
+mutant("c01-operator-shadow", ["C01"], (R, "        Parser::map(literal(\">=\"), |_| GreaterThanEquals),\n        Parser::map(literal(\">\"), |_| GreaterThan),", "        Parser::map(literal(\">\"), |_| GreaterThan),\n        Parser::map(literal(\">=\"), |_| GreaterThanEquals),"))
+mutant("c01-operator-swapped", ["C01"], (R, "        Parser::map(literal(\"<=\"), |_| LessThanEquals),\n        Parser::map(literal(\"<\"), |_| LessThan),", "        Parser::map(literal(\"<=\"), |_| LessThan),\n        Parser::map(literal(\"<\"), |_| LessThanEquals),"))
+mutant("c01-no-peek-on-tilde", ["C01"], (R, "        terminated(tilde, peek(alt((space1, literal(\"||\"), eof)))),", "        tilde,"))
+mutant("c01-partial-before-hyphen", ["C01"], (R, "        terminated(hyphen, peek(alt((space1, literal(\"||\"), eof)))),\n        terminated(primitive, peek(alt((space1, literal(\"||\"), eof)))),\n        terminated(partial, peek(alt((space1, literal(\"||\"), eof)))),", "        terminated(partial, peek(alt((space1, literal(\"||\"), eof)))),\n        terminated(hyphen, peek(alt((space1, literal(\"||\"), eof)))),\n        terminated(primitive, peek(alt((space1, literal(\"||\"), eof)))),"))
+mutant("c01-hyphen-upper-minor", ["C01"], (R, "            } => Predicate::Excluding(Version {\n                major,\n                minor: minor + 1,\n                patch: 0,\n                pre_release: vec![Identifier::Numeric(0)],\n                build: vec![],\n            }),\n            partial => Predicate::Including(partial.into()),", "            } => Predicate::Including(Version {\n                major,\n                minor: minor + 1,\n                patch: 0,\n                pre_release: vec![Identifier::Numeric(0)],\n                build: vec![],\n            }),\n            partial => Predicate::Including(partial.into()),"))
+mutant("c01-normalisation-lost", ["C01"], (R, "    let patch = if minor.is_some() {\n        patch.flatten()\n    } else {\n        None\n    };", "    let patch = patch.flatten();"))
+mutant("c02-fold-widens-again", ["C02", "C01"], (R, "                    .try_fold(first, |acc, bs| acc.intersect(&bs))\n                    .into_iter()\n                    .collect(),", "                    .fold(vec![first], |mut acc: Vec<BoundSet>, bs| {\n                        match acc.last().and_then(|l| l.intersect(&bs)) {\n                            Some(b) => {\n                                acc.pop();\n                                acc.push(b)\n                            }\n                            None => acc.push(bs),\n                        }\n                        acc\n                    }),"))
+mutant("c02-fold-restart-after-empty", ["C02"], (R, "                    .try_fold(first, |acc, bs| acc.intersect(&bs))\n                    .into_iter()\n                    .collect(),", "                    .fold(Some(first), |acc, bs| match acc {\n                        Some(a) => a.intersect(&bs),\n                        None => Some(bs),\n                    })\n                    .into_iter()\n                    .collect(),"))
+mutant("c02-or-drops-alternative", ["C02"], (R, "        |sets: Vec<Vec<BoundSet>>| sets.into_iter().flatten().collect(),", "        |sets: Vec<Vec<BoundSet>>| sets.into_iter().take(2).flatten().collect(),"))
+mutant("c02-satisfies-all", ["C02"], (R, "        for range in &self.0 {\n            if range.satisfies(version) {\n                return true;\n            }\n        }\n\n        false", "        for range in &self.0 {\n            if !range.satisfies(version) {\n                return false;\n            }\n        }\n\n        true"))
+neutral("caret-merge-duplicate-arms", ["C01"], (R, "            // TODO: can be compressed?\n            Partial {\n                major: Some(major),\n                minor: None,\n                patch: None,\n                ..\n            } => BoundSet::new(\n                Bound::Lower(Predicate::Including((major, 0, 0).into())),\n                Bound::Upper(Predicate::Excluding((major + 1, 0, 0, 0).into())),\n            ),\n            Partial {\n                major: Some(major),\n                minor: Some(minor),\n                patch: None,\n                ..\n            } => BoundSet::new(\n                Bound::Lower(Predicate::Including((major, minor, 0).into())),",
+           "            Partial {\n                major: Some(major),\n                minor,\n                patch: None,\n                ..\n            } => BoundSet::new(\n                Bound::Lower(Predicate::Including((major, minor.unwrap_or(0), 0).into())),"))
+neutral("simple-reorder-tilde-caret", ["C01"], (R, "        terminated(tilde, peek(alt((space1, literal(\"||\"), eof)))),\n        terminated(caret, peek(alt((space1, literal(\"||\"), eof)))),", "        terminated(caret, peek(alt((space1, literal(\"||\"), eof)))),\n        terminated(tilde, peek(alt((space1, literal(\"||\"), eof)))),"))
+neutral("desugar-version-literal", ["C01"], (R, "            ) => BoundSet::at_least(Predicate::Including((major, minor + 1, 0).into())),", "            ) => BoundSet::at_least(Predicate::Including(Version {\n                major,\n                minor: minor + 1,\n                patch: 0,\n                pre_release: Vec::new(),\n                build: Vec::new(),\n            })),"))
+neutral("fold-explicit-loop", ["C02", "C01"], (R, "            let mut sets = bs.into_iter().flatten();\n            match sets.next() {\n                Some(first) => sets\n                    .try_fold(first, |acc, bs| acc.intersect(&bs))\n                    .into_iter()\n                    .collect(),\n                None => Vec::new(),\n            }",
+           "            let mut acc: Option<BoundSet> = None;\n            let mut any = false;\n            for b in bs.into_iter().flatten() {\n                if !any {\n                    acc = Some(b);\n                    any = true;\n                } else if let Some(a) = acc.take() {\n                    acc = a.intersect(&b);\n                }\n            }\n            acc.into_iter().collect()"))
